@@ -117,7 +117,7 @@ MANIFEST_TEXT = {
     "C03": _mt("Seeded search over histories of connects, Hello irregularities (repeated, missing, late), disconnects/reconnects and messages with forged SENDER, "
                "unknown header fields 11..255, CONTAINER_INSTANCE, shuffled field order and both byte orders, under chunking/short-I/O/EINTR faults; every message any "
                "client receives is compared with the model's prediction (true sender, no injected field survives), every Hello reply against the name the bus holds; "
-               "unique names checked pairwise distinct incl. across the minor-counter wrap (hook H1).",
+               "unique names checked pairwise distinct incl. across the minor-counter wrap (hook H1). Forged SENDER values include near misses of the sender's own unique name (own name + digits, own name shortened); some messages repeat one header field (invalid: the sender is dropped and nothing of the message, in particular not the second copy of an injected field, is processed).",
                "DESIGN.md section 4 C03", "deterministic simulation, seeded schedule and fault search, model-based oracle on recorded history"),
     "C04": _mt("Seeded search over interleavings of RequestName (8 flag combinations + undefined bits), ReleaseName, disconnects, late connects and queries by 2-6 clients on 1-4 names "
                "with delivery chunking and I/O faults; the real daemon's every reply code, NameLost/NameAcquired/NameOwnerChanged (addressee, arguments, order before the reply), "
@@ -127,7 +127,7 @@ MANIFEST_TEXT = {
     "C05": _mt("Seeded search over interleavings of unicast traffic (all four types, flags, unique/well-known/missing destinations, the bus) with concurrent ownership changes, "
                "closes of sender/recipient, stalled readers with small socket buffers (EAGAIN / short writes on the bus side) and chunked arrival; oracle: at the instant the bus "
                "processes a message (probe H2) the model's primary owner is the only non-eavesdropping receiver, exactly once, fields and body intact, per-sender order kept, "
-               "exactly one error for an undeliverable call.",
+               "exactly one error for an undeliverable call. Some plans pass descriptors between connections that did and did not negotiate it, give bystanders match rules that name a unique-name destination without eavesdrop='true' (they must bring in nothing), address near misses of live unique names (:1.1 vs :1.1x, produced with few connections through the name-counter hook) and run with a small max_outgoing_bytes.",
                "DESIGN.md section 4 C05, appendix B", "deterministic simulation, seeded schedule and fault search, model-based oracle on recorded history"),
     "C07": _mt("Seeded search over histories of AddMatch/RemoveMatch (rule strings from a grammar-based generator in several quoting/escaping spellings, every key, empty values, "
                "deliberately defective rules, the per-connection rule limit), disconnects, ownership changes and broadcasts built from the same vocabulary (string / object-path / other "
@@ -139,13 +139,13 @@ MANIFEST_TEXT = {
                "limit-value length words, truncation, floods, half-sent messages, abrupt closes, many unauthenticated connections, clock jumps past auth_timeout) interleaved with a "
                "well-behaved pair and a bystander subscribed to everything; oracles: no sanitizer/assert/abort, quiescence within a step bound after faults stop (no spin), the pair's "
                "round trips answered correctly, the bus dispatches from a hostile stream only messages the independent codec accepts and disconnects the sender of an invalid one, "
-               "incomplete-connection cap and auth_timeout enforced (bounded liveness), memory blocks and descriptors back to baseline at the end.",
+               "incomplete-connection cap and auth_timeout enforced (bounded liveness), memory blocks and descriptors back to baseline at the end. A quarter of the hostile messages are well-formed but for one structural defect (the single-site corruptions of the stream checks: out-of-range boolean alone or inside an array, NUL / bad UTF-8 anywhere inside long ASCII runs, bad names, paths, signatures, duplicate / wrong-typed / missing fields).",
                "DESIGN.md section 4 C10", "deterministic simulation with hostile-actor fault injection, safety invariants + bounded liveness"),
     "C13": _mt("Seeded search over histories of connect/Hello/close by several simulated users, RequestName/ReleaseName, AddMatch/RemoveMatch, outstanding calls and messages around the "
                "size limit, with a random subset of limits configured to 1..5; white-box invariant after every bus step (registered, per-user, incomplete connections, names and "
                "rules per connection within limits) and protocol oracle (the overflowing request earns LimitsExceeded and changes nothing, requests below the limit are unaffected, "
                "freed capacity is reusable, an oversize message disconnects only its sender). In about 30% of the plans the configuration is reloaded once (ReloadConfig with a second "
-               "file: limits raised, lowered, removed or newly set): refusals must follow the limits in force, what is already held stays (the counting invariant of a lowered limit is switched off).",
+               "file: limits raised, lowered, removed or newly set): refusals must follow the limits in force, what is already held stays (the counting invariant of a lowered limit is switched off). A quarter of the calls of plans with max_message_size are padded to exactly the limit + d (d in -3..9) for every alignment of the header's end.",
                "DESIGN.md section 4 C13", "deterministic simulation, seeded history search, invariants checked at every step + model-based oracle"),
     "C06": _mt("Seeded search over configurations x histories: random allow/deny rule lists over every documented attribute (type, interface, member, path, error, destination, "
                "destination prefix, sender, broadcast, requested reply, eavesdrop, fd count, own / own_prefix, user / group) in default, user, group, at_console and mandatory contexts, "
@@ -158,7 +158,7 @@ MANIFEST_TEXT = {
     "C09": _mt("Seeded search over histories under a requested-replies-only policy: calls with and without NO_REPLY_EXPECTED, genuine / duplicate / wrong-serial / third-party replies, "
                "reuse of an outstanding serial, closes of caller or callee at any point, the pending-reply limit, finite reply_timeout driven by the virtual clock. The model keeps the "
                "reply slots; probe H2c reports the instant the bus expires a slot, so a reply is required to get through exactly while its slot is open, NoReply may not be sent before "
-               "the deadline and must be sent within one further timeout once the system is left alone (bounded liveness), exactly once per call.",
+               "the deadline and must be sent within one further timeout once the system is left alone (bounded liveness), exactly once per call. A fifth of the plans run with a small max_outgoing_bytes and stalling callees (a call refused for a full queue must leave no reply slot); the virtual clock is also moved exactly to a slot's deadline, give or take a millisecond.",
                "DESIGN.md section 4 C09", "deterministic simulation with virtual clock, seeded schedule search, model-based oracle + bounded liveness"),
     "C18": _mt("Seeded search over histories of name, unicast, broadcast and reply traffic in which 0-3 connections become monitors at arbitrary points (while owning or queued for names, "
                "with calls outstanding or to answer, privileged and not, valid and invalid filters), under allow-all, requested-replies-only and message-refusing policies. The model "
@@ -212,7 +212,7 @@ MANIFEST_TEXT = {
                "Oracle per call: completes at most once; a notify function runs exactly once and never for a cancelled call; the stolen reply carries the call's serial and is the FIRST "
                "reply the peer wrote for it, or a locally generated error only once the virtual deadline passed or the connection is gone; bounded liveness: after faults stop, all "
                "peer bytes are delivered and the clock has passed every finite deadline, every call that was not cancelled is complete. Serials: non-zero and pairwise distinct, with "
-               "the counter optionally started just below the 32-bit wrap (hook H4).",
+               "the counter optionally started just below the 32-bit wrap (hook H4). The virtual clock is also moved exactly to an outstanding call's deadline, give or take a millisecond.",
                "DESIGN.md section 4 C17", "deterministic simulation, seeded schedule search (application threads / peer / clock interleavings under a serialising scheduler), per-call reference model oracle with bounded liveness",
                note="Trusted base: simulated kernel (stream, poll, clock), independent codec for the peer side, the per-call model, and in thread mode the serialising scheduler "
                     "(sim/sched): 2-3 real application threads using the blocking API on one connection are parked at libdbus' platform mutex / condition-variable functions "
@@ -228,7 +228,7 @@ MANIFEST_TEXT = {
                "file (st_dev, st_ino) the sender attached in that position; a sender announcing more than it attached, exceeding the per-message maximum or announcing descriptors "
                "without negotiation is disconnected and nothing of the message is processed; a sender attaching more than announced is disconnected within pending_fd_timeout of "
                "virtual time once left alone (bounded liveness); the simulated kernel's ledger of every descriptor number installed into the daemon shows each closed exactly once "
-               "(no leak after the connections are gone and the bus is shut down, no double close), and no descriptor reaches a client without a message announcing it.",
+               "(no leak after the connections are gone and the bus is shut down, no double close), and no descriptor reaches a client without a message announcing it. A connection with surplus descriptors pending may go on sending more surplus; its deadline stays one pending_fd_timeout after the bus read the first surplus and is checked exactly after every clock step.",
                "DESIGN.md section 4 C15", "deterministic simulation, seeded history and fault search, model-based oracle plus descriptor ledger in the simulated kernel"),
     "C19": _mt("Seeded search over activation histories through the real daemon with generated service files in a scratch <servicedir>: several senders auto-starting (method calls, "
                "unicast signals, NO_AUTO_START / NO_REPLY variants) and StartServiceByName-ing the same and different activatable names concurrently; the simulated kernel's fork() hands "
